@@ -250,17 +250,20 @@ func c10Retry(p *Prog, r *Report) {
 		dirObj := objOf(info, loop.Key)
 		for _, id := range nes {
 			as, ok := f.Nodes[id].Ast.(*ast.AssignStmt)
-			if !ok || len(as.Lhs) != 1 || len(as.Rhs) != 1 {
+			if !ok || len(as.Lhs) != len(as.Rhs) {
 				continue
 			}
-			if objOf(info, as.Lhs[0]) == contentParam && contentParam != nil {
-				if c, ok := ast.Unparen(as.Rhs[0]).(*ast.CallExpr); ok && p.callIs(fi.Pkg, c, kNESReader) {
-					setContent = append(setContent, id)
+			// (a parallel assignment updates several of them at once)
+			for i := range as.Lhs {
+				if objOf(info, as.Lhs[i]) == contentParam && contentParam != nil {
+					if c, ok := ast.Unparen(as.Rhs[i]).(*ast.CallExpr); ok && p.callIs(fi.Pkg, c, kNESReader) {
+						setContent = append(setContent, id)
+					}
 				}
-			}
-			if sel, ok := ast.Unparen(as.Rhs[0]).(*ast.SelectorExpr); ok && sel.Sel.Name == "Free" && objOf(info, sel.X) == dirObj {
-				setMin = append(setMin, id)
-				minObj = objOf(info, as.Lhs[0])
+				if sel, ok := ast.Unparen(as.Rhs[i]).(*ast.SelectorExpr); ok && sel.Sel.Name == "Free" && objOf(info, sel.X) == dirObj {
+					setMin = append(setMin, id)
+					minObj = objOf(info, as.Lhs[i])
+				}
 			}
 		}
 		// every path from the As-true edge back to the loop head passes both assignments
